@@ -32,8 +32,8 @@ PROPS["C02"] = dict(
 
 PROPS["C03"] = dict(
     level="proof",
-    verus=["c02_dispatch", "c03_parse_mask"],
-    labels=["C03."] + MASK,
+    verus=["c02_dispatch", "c03_parse_mask", "c03_apply_options", "c05_optimizer"],
+    labels=["C03.", "C05.select."] + MASK,
     kani=[KaniSet("src/filters/network_matchers.rs", "c03_options.rs", [
         Harness("c03_options_nodomain", "C03.options.nodomain", "C", "full domain: 2^32 masks x 17 request types x scheme x party; loop-free"),
         Harness("c03_type_bit", "C03.type_bit", "C", "all 17 request types"),
@@ -42,7 +42,8 @@ PROPS["C03"] = dict(
         KaniSet("src/request.rs", "c03_request.rs", [
             Harness("c03_request_classify", "C03.request.classify", "C", "every (type alias, scheme, party) of the 24-entry alias table x 9 schemes; string loops bounded by the longest literal (unwind 20, unwinding assertions on)"),
         ])],
-    trusted=["option text -> (positive, negated) type masks in NetworkFilter::parse (closure + macro_rules!); only the two pure bit-mask blocks after it are under contract (R7 block lifts)",
+    trusted=["option text -> option AST (parse_filter_options: a match on string literals with early returns) is not under contract; the AST -> mask/modifier/tag step and the two bit-mask blocks after it are (R7 block lifts, R10 for_each->for and local macro expansion)",
+             "seahash of domain names, sort/dedup of the domain list, the OR-fold of the union (lifted, uninterpreted)",
              "seahash injectivity for domain hashes"],
     assumptions=[],
     level_text="Kani/CBMC proves check_options equal to a reference written from the option semantics for every 32-bit mask, request type, scheme and party "
@@ -263,8 +264,8 @@ PROPS["C11"] = dict(
 
 PROPS["C15"] = dict(
     level="proof",
-    verus=["c15_csp", "c01_lookup", "c05_optimizer"],
-    labels=["C15.", "C01.check_all.", "C05.select."] + MASK,
+    verus=["c15_csp", "c01_lookup", "c05_optimizer", "c03_apply_options"],
+    labels=["C15.", "C01.check_all.", "C05.select.", "C03.apply_options."] + MASK,
     kani=[],
     trusted=["R6: the `difference` + comma-join tail is lifted: its contract is 'None iff nothing remains, else the directive set of the string is enabled minus disabled'",
              "&str / String obey the hash key model (vstd axiom)", "csp option parsing (implies document+subdocument, rejects explicit types): NetworkFilter::parse is not under contract"],
